@@ -222,6 +222,14 @@ func randWireOp(a *aspec.ASpec, k int, rng *rand.Rand) wireOp {
 		// parameter attributes that do not change what must arrive (defaults spelled out, allowReserved - which only
 		// permits reserved characters to travel unencoded -, deprecated, allowEmptyValue), rotating over the operations
 		attrs := []map[string]any{nil, {"allowReserved": true}, {"style": "form", "explode": true}, nil, {"deprecated": true}, {"allowReserved": true, "explode": true}, {"allowEmptyValue": true}}[(k+len(params))%7]
+		if !arr && !req && s.K != "ref" && (k+len(params))%2 == 0 {
+			// a `default` annotation naming a value the pools draw often: a default describes what the server assumes
+			// for an absent parameter - it is no reason for a client to leave out a value the caller set
+			def := map[string]any{"string": "abc", "int": 42, "int32": 42, "int64": 0, "double": 1.5, "float": 1.5, "bool": true}[typ]
+			if def != nil {
+				s.Attrs = map[string]any{"default": def}
+			}
+		}
 		joined := false
 		if arr {
 			// an array parameter whose whole schema is a $ref to an array component, in turn; and `explode: false` (the
